@@ -42,6 +42,14 @@ def directed():
         out.append(("seq", [("ifs", C, ("seq", [("store", "x", ("int", 5)), ("return", ("int", 1))]), None), tail]))
         out.append(("seq", [("ifs", C, ("pop", ("int", 0)), ("seq", [("store", "x", ("int", 5)), ("return", ("int", 1))])), tail]))
         out.append(("seq", [("conds", [(C, ("seq", [("store", "x", ("int", 2)), ("return", ("int", 1))])), (("int", 1), ("pop", ("int", 3)))]), tail]))
+    # a sibling arm / an earlier statement reads x unwritten while another arm holds an adjacent store/load pair of x (the slot optimiser runs
+    # before the check: it must not delete the offending load)
+    pair = ("seq", [("store", "x", ("int", 5)), ("pop", ("load", "x"))])
+    out.append(("ifs", C, ("pop", ("load", "x")), pair))
+    out.append(("ifs", C, pair, ("pop", ("load", "x"))))
+    out.append(("conds", [(C, ("pop", ("load", "x"))), (("int", 1), pair)]))
+    out.append(("seq", [("ifs", C, ("pop", ("load", "x")), None), pair]))
+    out.append(("seq", [("pop", ("load", "x")), pair]))
     return out
 
 
@@ -164,7 +172,8 @@ def run(report: Report, tier, seed):
     S = stmts(2, False)
     if tier == "quick":
         S = S[::3] + S[:40]
-    S = S + directed()
+    D = directed()
+    S = S + D
     jobs = []
     for i, s in enumerate(S):
         v = [4, 6, 8, 10][i % 4]
@@ -174,6 +183,8 @@ def run(report: Report, tier, seed):
         # the same shapes on an explicitly numbered variable and on one whose index is also taken
         if i % 2 == 0 or tier != "quick":
             jobs.append((s, v, None, VAR_KINDS[1 + i % 3]))
+    for s_ in D:
+        jobs += [(s_, 10, None), (s_, 9, None), (s_, 8, True), (s_, 6, True), (s_, 10, False)]
     with ProcessPoolExecutor(max_workers=16) as ex:
         res = list(ex.map(case, jobs, chunksize=32))
     bad = [r for r in res if r["problem"]]
